@@ -31,6 +31,9 @@ type Engine struct {
 	intBits   int
 	goarch    string
 	known     []*KnownFinding
+	sentinels map[*types.Var]map[string]bool
+	sentMu    sync.Mutex
+	verifDir  string
 }
 
 type funcEntry struct {
@@ -284,6 +287,9 @@ func (e *Engine) findFunc(pkgPath, name string) *funcEntry {
 
 // verifyFunc generates all obligations of one function under contract for property prop.
 func (e *Engine) verifyFunc(ct *FuncContract, prop string) (res *FuncResult) {
+	if ct.Lemma {
+		return e.verifyLemma(ct, prop)
+	}
 	res = &FuncResult{Name: ct.Name, IntBits: e.intBits}
 	fe := e.findFunc(ct.Pkg, ct.Name)
 	if fe == nil {
@@ -293,7 +299,7 @@ func (e *Engine) verifyFunc(ct *FuncContract, prop string) (res *FuncResult) {
 	fc := &FnCtx{eng: e, pkg: fe.pkg, decl: fe.decl, contract: ct, prop: prop, name: displayName(fe),
 		loopOrd: map[ast.Node]int{}, strConsts: map[string]T{}, constRgn: map[string]int{}, constRgnS: map[int]string{},
 		specDecl: map[string]bool{}, oblNames: map[string]int{}, assumptions: map[string]bool{}, calleeUsed: map[string]bool{},
-		addrTaken: map[types.Object]bool{}, entryVars: map[string]Val{}, fieldPtrs: map[string]loc{},
+		addrTaken: map[types.Object]bool{}, entryVars: map[string]Val{}, fieldPtrs: map[string]loc{}, relied: map[string]bool{},
 		intBits: e.intBits, wrap: ct.Mode == "wrap", lenient: ct.Skeleton}
 	if e.intBits == 32 {
 		fc.name += "@32"
@@ -360,6 +366,7 @@ func (e *Engine) verifyFunc(ct *FuncContract, prop string) (res *FuncResult) {
 		t := fc.specBool(st, cl.Expr, &specEnv{fc: fc, st: st, old: st})
 		fc.assume(st, t)
 	}
+	fc.useLemmas(st)
 	fc.entry = st.clone()
 	fc.canary(st, "canary.entry", fc.body.Pos())
 	end := fc.execBlock(st, fc.body.List)
@@ -378,6 +385,9 @@ func (e *Engine) verifyFunc(ct *FuncContract, prop string) (res *FuncResult) {
 	res.Obls = fc.obls
 	res.Notes = fc.notes
 	res.Havocs = fc.havocs
+	for owners := range fc.relied {
+		res.Assumptions = append(res.Assumptions, "clauses of "+fc.name+" owned by "+owners+" are relied upon here and proved in the check of that property")
+	}
 	for a := range fc.assumptions {
 		res.Assumptions = append(res.Assumptions, a)
 	}
@@ -547,6 +557,114 @@ func (fc *FnCtx) checkPost(st *State, vals []Val, p token.Pos) {
 			o.Msg = "at return " + fc.pos(p)
 		}
 	}
+	fc.checkFrame(st, p)
+}
+
+// checkFrame: what the contract does not list under `modifies` must be unchanged at return.
+// This is the callee side of the havoc performed at call sites (applyModifies).
+func (fc *FnCtx) checkFrame(st *State, p token.Pos) {
+	ct := fc.contract
+	if ct.ModAll || fc.lenient || !fc.safetyActive() {
+		return
+	}
+	modPaths := map[string]bool{}
+	for _, m := range ct.Modifies {
+		modPaths[m.String()] = true
+	}
+	covered := func(path string) bool {
+		for m := range modPaths {
+			if path == m || strings.HasPrefix(path, m+".") {
+				return true
+			}
+		}
+		return false
+	}
+	explicit := len(ct.Modifies) > 0 || ct.Pure
+	// 1. byte heap
+	if st.heap.S != fc.entry.heap.S {
+		var allowed []T
+		names := make([]string, 0, len(fc.entryVars))
+		for n := range fc.entryVars {
+			names = append(names, n)
+		}
+		sort.Strings(names)
+		var walk func(path string, v Val, inMod bool)
+		walk = func(path string, v Val, inMod bool) {
+			inMod = inMod || covered(path)
+			switch x := v.(type) {
+			case VSlice:
+				if inMod && isByteElem(x.Elem) {
+					allowed = append(allowed, x.Rgn)
+				}
+			case VPtr:
+				if x.Obj >= 0 {
+					if tv, ok := fc.entry.objs[x.Obj]; ok {
+						// default contract: everything reachable from pointer parameters may be written
+						walk(path, tv, inMod || !explicit)
+					}
+				}
+			case VStruct:
+				for _, k := range sortedKeys(x.F) {
+					walk(path+"."+k, x.F[k], inMod)
+				}
+			}
+		}
+		for _, n := range names {
+			walk(n, fc.entryVars[n], false)
+		}
+		fc.nfr++
+		r := T{fmt.Sprintf("r!%d", fc.nfr), SInt}
+		conds := []T{lt(mkInt(0), r), lt(r, fc.entry.nextR)}
+		for _, a := range allowed {
+			conds = append(conds, neq(r, a))
+		}
+		goal := forallInt(r.S, implies(and(conds...), eq(sel(st.heap, r), sel(fc.entry.heap, r))))
+		fc.assert(st, "frame", "frame[heap]", goal, p, "only the regions listed under modifies are written")
+	}
+	// 2. fields of pointer parameters
+	if explicit {
+		names := make([]string, 0, len(fc.entryVars))
+		for n := range fc.entryVars {
+			names = append(names, n)
+		}
+		sort.Strings(names)
+		for _, n := range names {
+			pv, ok := fc.entryVars[n].(VPtr)
+			if !ok || pv.Obj < 0 {
+				continue
+			}
+			ev, fv := fc.entry.objs[pv.Obj], st.objs[pv.Obj]
+			if ev == nil || fv == nil {
+				continue
+			}
+			var cs []T
+			var cmp func(path string, a, b Val)
+			cmp = func(path string, a, b Val) {
+				if covered(path) {
+					return
+				}
+				as, aok := a.(VStruct)
+				bs, bok := b.(VStruct)
+				if aok && bok {
+					for _, k := range sortedKeys(as.F) {
+						if bv, ok := bs.F[k]; ok {
+							cmp(path+"."+k, as.F[k], bv)
+						} else {
+							cs = append(cs, tFalse) // field forgotten (havocked) on the way
+						}
+					}
+					return
+				}
+				if !sameVal(a, b) {
+					cs = append(cs, valEq(a, b))
+				}
+			}
+			cmp(n, ev, fv)
+			if g := and(cs...); g.S != "true" {
+				fc.assert(st, "frame", "frame["+n+"]", g, p, "fields not listed under modifies are unchanged")
+			}
+		}
+	}
 }
 
 // ---------------------------------------------------------------------------
@@ -596,4 +714,18 @@ func (fc *FnCtx) genericCopy(st *State, c *ast.CallExpr, dst VSlice, src Val) Va
 }
 func (fc *FnCtx) genericSpecElem(env *specEnv, s VSlice, i T) Val {
 	panic(unsupported("contract over []" + s.Elem.String() + " elements"))
+}
+
+// useLemmas assumes the conclusions of the lemmas listed under `uses` (each lemma is proved separately).
+func (fc *FnCtx) useLemmas(st *State) {
+	for _, name := range fc.contract.Uses {
+		lc, ok := fc.eng.db.Funcs[fc.contract.Pkg+"::lemma:"+name]
+		if !ok || len(lc.LemmaParams) > 0 || len(lc.Requires) > 0 || len(lc.Calls) > 0 {
+			panic(unsupported("uses lemma " + name + ": not a closed lemma"))
+		}
+		for _, cl := range lc.Ensures {
+			fc.axiom(fc.specBool(st, cl.Expr, &specEnv{fc: fc, st: st, old: st, callee: lc}))
+		}
+		fc.calleeUsed["lemma "+name] = true
+	}
 }
